@@ -266,3 +266,32 @@ Qed.
 Lemma index_single_spec : forall c s i, index [c] s = Some i ->
   exists a b, s = a ++ c :: b /\ i = length a /\ ~ In c a.
 Proof. intros c s i H. apply index_from_single_spec in H. exact H. Qed.
+
+Lemma skip_quoted_le_aux : forall n s, (length s <= n)%nat -> (skip_quoted s <= length s)%nat.
+Proof.
+  induction n as [|n IH]; intros s Hn.
+  - destruct s; [cbn; lia | cbn in Hn; lia].
+  - destruct s as [|c r]; [cbn; lia|]. cbn [skip_quoted length].
+    destruct (Byte.eqb c x22); [lia|].
+    destruct (Byte.eqb c x5c).
+    + destruct r as [|d r']; [cbn; lia|]. cbn [length] in *. specialize (IH r' ltac:(lia)). lia.
+    + cbn [length] in Hn. specialize (IH r ltac:(lia)). lia.
+Qed.
+
+Lemma skip_quoted_le : forall s, (skip_quoted s <= length s)%nat.
+Proof. intros s. apply (skip_quoted_le_aux (length s)). lia. Qed.
+
+Lemma skip_quoted_escaped_aux : forall n m r, (length m <= n)%nat -> escaped_ok m = true ->
+  skip_quoted (m ++ x22 :: r) = length m.
+Proof.
+  induction n as [|n IH]; intros m r Hn He.
+  - destruct m; [reflexivity | cbn in Hn; lia].
+  - destruct m as [|c m']; [reflexivity|]. cbn [escaped_ok] in He. cbn [app skip_quoted length].
+    destruct (Byte.eqb c x22); [discriminate|].
+    destruct (Byte.eqb c x5c).
+    + destruct m' as [|d m'']; [discriminate|]. cbn [app length] in *. rewrite IH by (try lia; exact He). reflexivity.
+    + cbn [length] in Hn. rewrite IH by (try lia; exact He). reflexivity.
+Qed.
+
+Lemma skip_quoted_escaped : forall m r, escaped_ok m = true -> skip_quoted (m ++ x22 :: r) = length m.
+Proof. intros m r H. apply (skip_quoted_escaped_aux (length m)); [lia | exact H]. Qed.
